@@ -2,9 +2,9 @@
    degree-0 curve gives the zero curve; C is not modified; for rational curves the quotient rule holds pointwise.
    Statements only; proofs in Proofs/QuadProofs.v (and Proofs/DerivProofs.v).  The integral identity used by the
    check's oracle is exact because the open Newton-Cotes rule is exact on the polynomial pieces (C10). *)
-From Coq Require Import QArith List Bool Arith.
-From NurbsV Require Import Base.Res Base.QList Gen.Consts Model.KV Model.CurveM Model.Ops Model.Linalg Model.Quadrature Model.Calculus.
-From NurbsV Require Import Proofs.MatProofs Proofs.QuadProofs.
+From Coq Require Import QArith Qabs List Bool Arith.
+From NurbsV Require Import Base.Res Base.QList Spec.BSpline Gen.Consts Model.KV Model.CurveM Model.Ops Model.Linalg Model.Quadrature Model.Calculus.
+From NurbsV Require Import Proofs.Local Proofs.MatProofs Proofs.QuadProofs Proofs.DerivProofs.
 Import ListNotations.
 Open Scope Q_scope.
 Theorem C09_oracle_rule_exact :
@@ -22,6 +22,107 @@ Theorem C09_oracle_nodes_interior :
        (forall k : nat, (k < n)%nat -> 0 < nth k x 0 < 1).
 Proof. exact open_linspace_nodes. Qed.
 Print Assumptions C09_oracle_nodes_interior.
+
+(* ---- the B-spline derivative formula, every degree and index (Proofs/DerivProofs.v): dNloc is the derivative of the
+   span-local polynomial Nloc (Taylor form with explicit remainder, and an epsilon-delta statement over Q); it equals
+   j (N_{i,j-1}/(u_{i+j}-u_i) - N_{i+1,j-1}/(u_{i+j+1}-u_{i+1})); summation by parts gives the derivative curve with exactly
+   the coefficients the model's difference_points computes. ---- *)
+Theorem C09_taylor :
+  forall (U : nat -> Q) (s : nat) (u h : Q) (j i : nat),
+       Nloc U s j i (u + h) == Nloc U s j i u + h * dNloc U s j i u + h * h * rem U s j i u h.
+Proof. exact Nloc_taylor. Qed.
+Print Assumptions C09_taylor.
+
+Theorem C09_is_the_derivative :
+  forall (U : nat -> Q) (s : nat) (u : Q) (j i : nat) (eps : Q),
+       0 < eps ->
+       exists delta : Q,
+         0 < delta /\
+         (forall h : Q,
+          ~ h == 0 ->
+          Qabs h < delta -> Qabs ((Nloc U s j i (u + h) - Nloc U s j i u) / h - dNloc U s j i u) < eps).
+Proof. exact Nloc_derivative. Qed.
+Print Assumptions C09_is_the_derivative.
+
+Theorem C09_derivative_formula :
+  forall (U : nat -> Q) (s : nat),
+       mono U ->
+       U s < U (S s) ->
+       forall (u : Q) (j i : nat),
+       (1 <= j)%nat ->
+       dNloc U s j i u ==
+       inject_Z (Z.of_nat j) *
+       (Nloc U s (j - 1) i u / (U (i + j)%nat - U i) -
+        Nloc U s (j - 1) (S i) u / (U (i + j + 1)%nat - U (i + 1)%nat)).
+Proof. exact dNloc_formula. Qed.
+Print Assumptions C09_derivative_formula.
+
+Theorem C09_curve_derivative :
+  forall (U : nat -> Q) (s : nat),
+       mono U ->
+       U s < U (S s) ->
+       forall (u : Q) (p n : nat) (P : nat -> Q),
+       (1 <= p)%nat ->
+       (p <= s)%nat ->
+       (s < n)%nat ->
+       qsum (map (fun i : nat => dNloc U s p i u * P i) (seq 0 n)) ==
+       qsum (map (fun i : nat => Nloc U s (p - 1) (S i) u * dcoef U p P i) (seq 0 (n - 1))).
+Proof. exact deriv_curve_seq. Qed.
+Print Assumptions C09_curve_derivative.
+
+Theorem C09_curve_derivative_shifted :
+  forall (U : nat -> Q) (s : nat),
+       mono U ->
+       U s < U (S s) ->
+       forall (u : Q) (p n : nat) (P : nat -> Q),
+       (1 <= p)%nat ->
+       (p <= s)%nat ->
+       (s < n)%nat ->
+       qsum (map (fun i : nat => dNloc U s p i u * P i) (seq 0 n)) ==
+       qsum
+         (map
+            (fun i : nat =>
+             Nloc (fun m : nat => U (S m)) (s - 1) (p - 1) i u *
+             (inject_Z (Z.of_nat p) / (U (S (i + p)) - U (S i)) * (P (S i) - P i))) 
+            (seq 0 (n - 1))).
+Proof. exact deriv_curve_shift. Qed.
+Print Assumptions C09_curve_derivative_shifted.
+
+Theorem C09_model_coefficients :
+  forall (U : list Q) (p : nat) (P : list pt) (i k : nat),
+       (i < length P - 1)%nat ->
+       (k < length (nth (S i) P []))%nat ->
+       (k < length (nth i P []))%nat ->
+       nth k (nth i (difference_points U p P) []) 0 ==
+       dcoef (nthq U) p (fun m : nat => nth k (nth m P []) 0) i.
+Proof. exact difference_points_coef. Qed.
+Print Assumptions C09_model_coefficients.
+
+Theorem C09_model_curve_derivative :
+  forall (U : list Q) (p s d k : nat) (P : list pt) (u : Q),
+       mono (nthq U) ->
+       nthq U s < nthq U (S s) ->
+       (1 <= p)%nat ->
+       (p <= s)%nat ->
+       (s < length P)%nat ->
+       (forall i : nat, (i < length P)%nat -> length (nth i P []) = d) ->
+       (k < d)%nat ->
+       qsum (map (fun i : nat => dNloc (nthq U) s p i u * nth k (nth i P []) 0) (seq 0 (length P))) ==
+       qsum
+         (map (fun i : nat => Nloc (nthq U) s (p - 1) (S i) u * nth k (nth i (difference_points U p P) []) 0)
+            (seq 0 (length (difference_points U p P)))).
+Proof. exact deriv_curve_model. Qed.
+Print Assumptions C09_model_curve_derivative.
+
+Theorem C09_partition_derivative_zero :
+  forall (U : nat -> Q) (s : nat) (u : Q) (p n : nat),
+       mono U ->
+       U s < U (S s) ->
+       (1 <= p)%nat ->
+       (p <= s)%nat -> (s < n)%nat -> qsum (map (fun i : nat => dNloc U s p i u) (seq 0 n)) == 0.
+Proof. exact dNloc_sum_zero. Qed.
+Print Assumptions C09_partition_derivative_zero.
+
 
 (* non-vacuity: derivative of a two-span quadratic with a jump (interior knot of full multiplicity), by the model *)
 Example C09_nonvacuous :
